@@ -107,6 +107,9 @@ REDOX_PAIRS = [["Fe(2)", "Fe(3)"], ["N(5)", "N(-3)"], ["S(6)", "S(-2)"], ["N(5)"
 SS_SETS = {"CaSr": ["Calcite", "Strontianite"], "BaSr": ["Barite", "Celestite"], "MnZn": ["Rhodochrosite", "Smithsonite"],
            "PbCd": ["Cerussite", "Otavite"]}
 DEF_SS = ["BaSr", "CaSr"]
+# a definition lists 2-3 members of the pool of its solid-solution name in a drawn ORDER, so that two sources of a later
+# SOLID_SOLUTIONS_MIX hold the same solid solution with components at different positions / different subsets
+SS_POOL = {"CaSr": ["Calcite", "Strontianite", "Witherite"], "BaSr": ["Barite", "Celestite", "Anhydrite"]}
 PP_POOL = ["Calcite", "Gypsum", "CO2(g)", "Quartz", "Celestite", "Barite"]
 REACTANTS = ["NaCl", "KCl", "CaCl2", "HCl", "NaOH", "CO2", "Na2SO4"]
 MODS = {
@@ -472,9 +475,15 @@ def render_def(d):
         if p.get("eq") is not None:
             L.append(" -equilibrate %d" % p["eq"])
     elif k == "SOLID_SOLUTIONS":
-        for name, m1, m2 in p["sets"]:
-            c1, c2 = SS_SETS[name]
-            L += [" %s" % name, "  -comp %s %s" % (c1, fmt(m1)), "  -comp %s %s" % (c2, fmt(m2))]
+        for st_ in p["sets"]:
+            if len(st_) == 3 and not isinstance(st_[1], list):       # older cases: fixed pair in fixed order
+                name, m1, m2 = st_
+                comps = list(zip(SS_SETS[name], [m1, m2]))
+            else:
+                name, comps = st_
+            L.append(" %s" % name)
+            for c, m in comps:
+                L.append("  -comp %s %s" % (c, fmt(m)))
     elif k == "KINETICS":
         for rate, m, kk in p["rates"]:
             L += [" %s" % rate, "  -formula %s 1" % RATE_FORMULA[rate], "  -m %s" % fmt(m), "  -m0 %s" % fmt(m),
@@ -767,12 +776,12 @@ def params(draw, kind, M):
             p["redox"] = [[name, red[name]] for name in sorted(red)]
         return p
     if kind == "EQUILIBRIUM_PHASES":
-        ph = draw(st.lists(st.sampled_from(PP_POOL), min_size=1, max_size=2, unique=True))
+        ph = draw(st.lists(st.sampled_from(PP_POOL), min_size=1, max_size=3, unique=True))
         return {"phases": [[x, draw(_un(-3.5, -1.5)) if x == "CO2(g)" else 0.0, draw(st.sampled_from([0.0, 0.001, 0.1, 1.0]))] for x in ph]}
     if kind == "EXCHANGE":
         if sols and draw(st.booleans()):
             return {"eq": draw(st.sampled_from(sols)), "X": draw(_lg(1e-3, 0.2))}
-        cs = draw(st.lists(st.sampled_from(["NaX", "KX", "CaX2", "MgX2"]), min_size=1, max_size=2, unique=True))
+        cs = draw(st.lists(st.sampled_from(["NaX", "KX", "CaX2", "MgX2"]), min_size=1, max_size=3, unique=True))
         return {"comps": [[c, draw(_lg(1e-3, 0.1))] for c in cs]}
     if kind == "SURFACE":
         p = {"w": draw(_lg(1e-4, 5e-3)), "grams": draw(_un(0.5, 3.0)), "s": draw(st.one_of(st.none(), _lg(1e-5, 1e-4))),
@@ -782,16 +791,20 @@ def params(draw, kind, M):
         return p
     if kind == "GAS_PHASE":
         t = draw(st.sampled_from(["v", "p"]))
-        cs = draw(st.lists(st.sampled_from(["CO2(g)", "Ntg(g)"]), min_size=1, max_size=2, unique=True))
+        cs = draw(st.lists(st.sampled_from(["CO2(g)", "Ntg(g)", "Mtg(g)"]), min_size=1, max_size=3, unique=True))
         p = {"type": t, "V": draw(_un(0.5, 3.0)), "P": draw(_un(0.5, 3.0)), "comps": [[c, draw(_lg(1e-3, 0.5))] for c in cs]}
         if t == "v" and sols and draw(st.integers(0, 3)) == 0:
             p["eq"] = draw(st.sampled_from(sols))
         return p
     if kind == "SOLID_SOLUTIONS":
         names = draw(st.lists(st.sampled_from(DEF_SS), min_size=1, max_size=2, unique=True))
-        return {"sets": [[nm, draw(_lg(1e-3, 0.1)), draw(_lg(1e-4, 0.01))] for nm in names]}
+        sets = []
+        for nm in names:
+            cs = draw(st.lists(st.sampled_from(SS_POOL[nm]), min_size=2, max_size=3, unique=True))     # order as drawn
+            sets.append([nm, [[c, draw(_lg(1e-4, 0.1))] for c in cs]])
+        return {"sets": sets}
     if kind == "KINETICS":
-        rs = draw(st.lists(st.sampled_from(DEF_RATES), min_size=1, max_size=2, unique=True))
+        rs = draw(st.lists(st.sampled_from(DEF_RATES), min_size=1, max_size=3, unique=True))
         return {"rates": [[r, draw(_lg(1e-4, 1e-2)), draw(_lg(1e-5, 1e-2))] for r in rs], "time": draw(_lg(1.0, 50.0)),
                 "nsteps": draw(st.sampled_from([1, 1, 2]))}
     if kind == "MIX":
@@ -1018,9 +1031,50 @@ def op_mixkw(draw, M):
     first = draw(st.sampled_from(ex))
     key = "gtype" if k == "GAS_PHASE" else "stype"
     comp = [n for n in ex if M.m[k][n].get(key) == M.m[k][first].get(key) and n != first]
-    more = draw(st.lists(st.sampled_from(comp), max_size=2, unique=True)) if comp else []
+    more = draw(st.lists(st.sampled_from(comp), min_size=draw(st.sampled_from([0, 1, 1])), max_size=2, unique=True)) if comp else []
     a, b = draw(target_range())
     return {"mixkw": [{"kind": k, "n": a, "m": b, "parts": [[s, draw(_un(0.1, 1.5))] for s in [first] + more]}]}
+
+
+def reordered(kind, p, draw):
+    """a second definition with the same named sub-components in another order / a subset, with new amounts"""
+    q = _copy.deepcopy(p)
+    amt = lambda: draw(_lg(1e-3, 0.1))
+    if kind == "SOLID_SOLUTIONS":
+        for st_ in q["sets"]:
+            comps = list(reversed(st_[1]))
+            if len(comps) == 3 and draw(st.booleans()):
+                comps = comps[1:]
+            st_[1] = [[c, amt()] for c, m in comps]
+        q["sets"].reverse()
+    elif kind == "EQUILIBRIUM_PHASES":
+        q["phases"] = [[n, si, draw(st.sampled_from([0.001, 0.1, 1.0]))] for n, si, m in reversed(q["phases"])]
+    elif kind == "GAS_PHASE":
+        q["comps"] = [[n, amt()] for n, pp in reversed(q["comps"])]
+        q.pop("eq", None)
+    elif kind == "EXCHANGE":
+        q["comps"] = [[n, amt()] for n, m in reversed(q["comps"])]
+    elif kind == "KINETICS":
+        q["rates"] = [[r, amt(), k] for r, m, k in reversed(q["rates"])]
+    return q
+
+
+@st.composite
+def op_mix_pair(draw, M):
+    """two simulations: two entries of one kind whose sub-components are listed in different order (or one is a subset of the
+    other), then X_MIX over both - the mixed entry must hold fraction-weighted sums per NAMED component"""
+    kind = draw(st.sampled_from(["SOLID_SOLUTIONS", "SOLID_SOLUTIONS", "SOLID_SOLUTIONS", "EQUILIBRIUM_PHASES", "GAS_PHASE", "EXCHANGE", "KINETICS"]))
+    a = draw(number())
+    b = draw(number().filter(lambda x: x != a))
+    p1 = draw(params(kind, M))
+    if kind == "EXCHANGE" and "comps" not in p1:
+        p1 = {"comps": [[c, draw(_lg(1e-3, 0.1))] for c in draw(st.lists(st.sampled_from(["NaX", "KX", "CaX2", "MgX2"]), min_size=2, max_size=3, unique=True))]}
+    p1.pop("eq", None)
+    p2 = reordered(kind, p1, draw)
+    d = {"defs": [{"kind": kind, "n": a, "m": None, "p": p1}, {"kind": kind, "n": b, "m": None, "p": p2}], "react": _copy.deepcopy(PURE)}
+    t, tb = draw(target_range())
+    mix = {"mixkw": [{"kind": kind, "n": t, "m": tb, "parts": [[a, draw(_un(0.1, 1.5))], [b, draw(_un(0.1, 1.5))]]}]}
+    return [d, mix]
 
 
 @st.composite
@@ -1077,7 +1131,7 @@ def op_seed(draw, M):
 
 
 OPS = ["define", "define", "define", "react", "react", "react", "copy", "copy", "copy", "copy", "copy", "delete", "delete", "delete",
-       "delete", "modify", "modify", "modify", "mixkw", "run_cells", "run_cells", "use_missing", "save_noop", "hidden"]
+       "delete", "modify", "modify", "modify", "mixkw", "run_cells", "run_cells", "use_missing", "save_noop", "hidden", "mix_pair", "mix_pair"]
 
 
 @st.composite
@@ -1101,6 +1155,8 @@ def next_op(draw, M):
         return draw(op_use_missing(M))
     if t == "save_noop":
         return draw(op_save_noop(M))
+    if t == "mix_pair":
+        return draw(op_mix_pair(M))
     return draw(op_copy(M, allow_delete=False, hidden=True))
 
 
@@ -1116,14 +1172,16 @@ def history(draw, min_ops=5, max_ops=13):
         op = draw(next_op(M))
         if not op:
             continue
-        excluded += op.pop("_excluded", 0)
+        seq = op if isinstance(op, list) else [op]
         M2 = _copy.deepcopy(M)
         try:
-            M2.apply(op)
+            for o in seq:
+                excluded += o.pop("_excluded", 0)
+                M2.apply(o)
         except OutOfDomain:
             continue
         M = M2
-        ops.append(op)
+        ops.extend(seq)
     case = {"ops": ops}
     if excluded:
         case["excluded_overlapping_defs"] = excluded
